@@ -160,6 +160,21 @@ def generate(repo):
     except Exception as ex:
         items["scan_zero_norm_guard"] = "miss:%s" % ex
 
+    # the exact scan has twin implementations (sequential / rayon); both must be the same expression
+    twins = False
+    try:
+        oks = []
+        for a, b in (("search_sequential", "search_parallel"), ("search_sequential_with_metric", "search_parallel_with_metric")):
+            _, ba = find_fn(impl, a)
+            _, bb = find_fn(impl, b)
+            na = re.sub(r"\s+", "", ba)
+            nb = re.sub(r"\s+", "", bb).replace("keys.par_iter()", "keys.iter()")
+            oks.append(na == nb and na.startswith("keys.iter()"))
+        twins = all(oks)
+        items["scan_twins_agree"] = "translated"
+    except Exception as ex:
+        items["scan_twins_agree"] = "miss:%s" % ex
+
     arms = "\n".join("  | %d => %s" % (mid, "true" if inv.get(mid) else "false") for mid, _, _ in MUTATORS)
     names = "\n".join("   %d %s" % (mid, fn) for mid, fn, _ in MUTATORS)
     text = HEADER + (
@@ -178,7 +193,11 @@ def generate(repo):
         "(* is the degenerate-vector test `norm == 0.0` (and nothing else) in EmbeddingStorage::cosine_distance_{dense,\n"
         "   dense_with_registry,sparse} (index) / in VectorEngine::cosine_similarity (exact scan) *)\n"
         "Definition gen_index_zero_guard_exact : bool := %s.\nDefinition gen_scan_zero_guard_exact : bool := %s.\n"
+        "(* search_sequential / search_parallel and search_sequential_with_metric / search_parallel_with_metric are the\n"
+        "   same iterator chain over the keys (up to iter / par_iter), with nothing in front of it *)\n"
+        "Definition gen_scan_twins_agree : bool := TWINS.\n"
         % (names, arms, keep, eps, num, den, "true" if guard else "false", "true" if fallback else "false",
            "true" if idx_guard else "false", "true" if scan_guard else "false")
     )
+    text = text.replace("TWINS", "true" if twins else "false")
     return text, items
